@@ -304,6 +304,54 @@ def sentence_oracle(ctx: Ctx, n: int) -> None:
         check_sentence_clauses(ctx, ws, W, i0, s0, ml, md, out)
 
 
+def nowrap_and_lenfn_oracle(ctx: Ctx, n: int) -> None:
+    """two corners of the public wrappers: every non-positive width means "do not wrap" in BOTH wrappers (one line per
+    paragraph), and a custom length function measures the indents too (BOUND / MAXIMAL in display columns)"""
+    from flowmark.linewrapping import line_wrappers as lw
+    from flowmark.linewrapping import text_wrapping as tw
+    rng = ctx.rng
+
+    def wide(s: str) -> int:
+        return sum(2 if ord(c) > 0x2E80 else 1 for c in s)
+    for _ in range(n):
+        ws = gen.rand_words(rng, rng.randint(1, 30), hazard=0.0)
+        text = " ".join(ws)
+        W = rng.choice([0, -1, -2, -7, -88])
+        for name, w in (("line_wrap_by_sentence", lw.line_wrap_by_sentence(width=W, is_markdown=True)),
+                        ("line_wrap_to_width", lw.line_wrap_to_width(width=W, is_markdown=True))):
+            out = w(text, "- ", "  ")
+            ctx.count(["nowrap", name, text, W], nontrivial=True)
+            ctx.bump("nowrap:" + name)
+            if "\n" in out:
+                ctx.fail("NOWRAP: width<=0 must give exactly one line per paragraph", {"fn": name, "text": text, "W": W}, out)
+                return
+    cjk = ["漢字", "かな", "文字列", "語", "ａｂ", "word", "x", "latin", "長い言葉です"]
+    for _ in range(n):
+        ws = [rng.choice(cjk) for _ in range(rng.randint(2, 25))]
+        text = " ".join(ws)
+        W = rng.choice([10, 16, 24, 40])
+        i0 = rng.choice(["", "・ ", "　", "- "])
+        s0 = rng.choice(["", "　　", "　", "  "])
+        for name, out in (("wrap_paragraph", tw.wrap_paragraph(text, width=W, initial_indent=i0, subsequent_indent=s0, len_fn=wide)),
+                          ("line_wrap_to_width", lw.line_wrap_to_width(width=W, len_fn=wide)(text, i0, s0))):
+            lines = out.split("\n")
+            ctx.count(["len_fn", name, text, W, i0, s0], nontrivial=len(lines) > 1)
+            ctx.bump("len_fn:" + name)
+            for k, l in enumerate(lines):
+                ind = i0 if k == 0 else s0
+                body = l[len(ind):]
+                if wide(l) > W and " " in body.strip():
+                    ctx.fail("BOUND (custom len_fn): a breakable line is wider than the width in the caller's own measure",
+                             {"fn": name, "text": text, "W": W, "i0": i0, "s0": s0}, {"line": l, "columns": wide(l)})
+                    return
+                if k + 1 < len(lines):
+                    nxt = lines[k + 1][len(s0):].split(" ")[0]
+                    if wide(l) + 1 + wide(nxt) <= W:
+                        ctx.fail("MAXIMAL (custom len_fn): the next word would have fitted in the caller's own measure",
+                                 {"fn": name, "text": text, "W": W, "i0": i0, "s0": s0}, {"line": l, "next": nxt})
+                        return
+
+
 def doc_indent_oracle(ctx: Ctx, n: int) -> None:
     """Renderer side of INDENTS/BOUND: the prefixes the renderer hands to the wrapper at every container
     nesting (recorded through the public line_wrapper parameter), and the real wrapper's output for them."""
@@ -379,6 +427,7 @@ def run(ctx: Ctx) -> None:
     else:
         search(ctx)
     sentence_oracle(ctx, ctx.scale(4000, 60000))
+    nowrap_and_lenfn_oracle(ctx, ctx.scale(400, 6000))
     if driver_ok:
         import rendertie
         ctx.guard("tie render", rendertie.tie_render, ctx.scale(150, 3000))
